@@ -116,11 +116,6 @@ pub open spec fn gdss_ok(is_async: bool, prev_def: Option<Seq<Tok>>, prev_step: 
     &&& r.1@ == step_toks(is_async, prev_step, x)
 }
 
-/// an action the generator can print: everything but a bare `<<<`
-pub open spec fn printable(e: ActionExpr) -> bool {
-    !(e matches ActionExpr::Process(p) && p is UNWRAP)
-}
-
 pub open spec fn opt_toks(o: Option<TokenStream>) -> Seq<Tok> {
     match o { Some(t) => t@, None => Seq::<Tok>::empty() }
 }
@@ -290,6 +285,14 @@ pub open spec fn started_as(t: Seq<Tok>, lazy: bool, is_spawn: bool, is_async: b
 /// `step_acts_ok`, hidden: `generate_step` only passes it on to `generate_step_branch`
 #[verifier::opaque]
 pub open spec fn acts_ok_o<'a>(acts: Seq<&'a ExprGroup<ActionExpr>>) -> bool { step_acts_ok(acts) }
+
+/// what the generator needs to know about one branch as the parser hands it over: every step the split produces has at
+/// least one action and is a step the parser can produce.  PROVED from the postcondition of `build_from_parse_stream`
+/// (`balanced` + `members_ok`) by `lemma_accepted_branch` (module `gen`).
+pub open spec fn branch_steps_ok(ms: Seq<ExprGroup<ActionExpr>>) -> bool {
+    forall|s: int| 0 <= s < split_steps(ms, ms.len() as int).len() ==>
+        (#[trigger] split_steps(ms, ms.len() as int)[s]).len() > 0 && acts_ok_o(split_steps(ms, ms.len() as int)[s])
+}
 
 /// what `JoinOutput::new` establishes about `chains` (its step split is verified as `split_branch_steps`; that the
 /// fields are filled from it is read off the code, see assumptions): `chains[b]` has `depths[b]` steps, every step has
